@@ -418,6 +418,21 @@ def _split_parallel_any(target, value) -> Optional[List[ast.stmt]]:
     return out
 
 
+class _GetattrConst(ast.NodeTransformer):
+    """getattr(o, 'name') with a literal identifier -> o.name ; partial(f, *a, **k)(*b, **l) -> f(*a, *b, **k, **l)"""
+
+    def visit_Call(self, node):
+        self.generic_visit(node)
+        f = node.func
+        if isinstance(f, ast.Call) and ((isinstance(f.func, ast.Name) and f.func.id == "partial") or (isinstance(f.func, ast.Attribute) and f.func.attr == "partial")) and f.args and not any(isinstance(a, ast.Starred) for a in f.args + node.args) and not any(k.arg is None for k in f.keywords + node.keywords):
+            kw = {k.arg: k for k in f.keywords}
+            kw.update({k.arg: k for k in node.keywords})
+            return ast.copy_location(ast.Call(func=f.args[0], args=list(f.args[1:]) + list(node.args), keywords=list(kw.values())), node)
+        if isinstance(node.func, ast.Name) and node.func.id == "getattr" and len(node.args) == 2 and not node.keywords and isinstance(node.args[1], ast.Constant) and isinstance(node.args[1].value, str) and node.args[1].value.isidentifier():
+            return ast.copy_location(ast.Attribute(value=node.args[0], attr=node.args[1].value, ctx=ast.Load()), node)
+        return node
+
+
 class _Rename(ast.NodeTransformer):
     def __init__(self, mp):
         self.mp = mp
@@ -511,6 +526,7 @@ class ModuleNormalizer:
                 self._fold_constant_tests(q, node)
             self._drop_unused_nested(q, node)
             self._drop_self_assignments(node)
+            self._unroll_table_loops(q, node)
             self._ifelse_blocks_to_ifexp(q, node)
             self._split_tuple_assigns(q, node)
             self._loops_to_comprehensions(q, node)
@@ -1022,6 +1038,78 @@ class ModuleNormalizer:
                     stmts[i - 1 : i] = new
                     i += len(new) - 1
                     self.log.append(f"{q}: if/else blocks assigning {names} written as conditional expressions")
+
+    def _module_table(self, name: str):
+        for s_ in self.tree.body:
+            if isinstance(s_, ast.Assign) and len(s_.targets) == 1 and isinstance(s_.targets[0], ast.Name) and s_.targets[0].id == name:
+                return s_.value
+            if isinstance(s_, ast.AnnAssign) and isinstance(s_.target, ast.Name) and s_.target.id == name and s_.value is not None:
+                return s_.value
+        return None
+
+    def _unroll_table_loops(self, q: str, node):
+        """`for cls, impl in TABLE: if isinstance(x, cls): return impl(x)` (TABLE a literal of rows, at module level or
+        bound once in the function, loop variables not locals of the reference function)  ->  the same tests written
+        out row by row; a for/else becomes the final else.  `getattr(o, 'name')` with a literal name becomes `o.name`."""
+        frozen = set(self.fn.get(q, []))
+        changed = False
+        for parent in [node] + [n for n in _own_nodes(node) if not isinstance(n, (ast.FunctionDef, ast.AsyncFunctionDef, ast.ClassDef, ast.Lambda))]:
+            for field in ("body", "orelse", "finalbody"):
+                stmts = getattr(parent, field, None)
+                if not isinstance(stmts, list):
+                    continue
+                i = 0
+                while i < len(stmts):
+                    l = stmts[i]
+                    i += 1
+                    if not (isinstance(l, ast.For) and len(l.body) == 1 and isinstance(l.body[0], ast.If) and not l.body[0].orelse and l.body[0].body):
+                        continue
+                    tg = l.target
+                    names = [tg.id] if isinstance(tg, ast.Name) else ([e.id for e in tg.elts] if isinstance(tg, ast.Tuple) and all(isinstance(e, ast.Name) for e in tg.elts) else None)
+                    if not names or any(nm in frozen for nm in names):
+                        continue
+                    tbl = l.iter
+                    if isinstance(tbl, ast.Name):
+                        loc = [a.value for a in _own_nodes(node) if isinstance(a, ast.Assign) and len(a.targets) == 1 and isinstance(a.targets[0], ast.Name) and a.targets[0].id == tbl.id]
+                        tbl = loc[0] if len(loc) == 1 else (self._module_table(tbl.id) if not loc else None)
+                    elif isinstance(tbl, ast.Attribute) and isinstance(tbl.value, ast.Name) and tbl.value.id in ("self", "cls"):
+                        tbl = None
+                    if not isinstance(tbl, (ast.Tuple, ast.List)) or not (1 <= len(tbl.elts) <= 16):
+                        continue
+                    rows = []
+                    for r in tbl.elts:
+                        if isinstance(tg, ast.Name):
+                            rows.append({names[0]: r})
+                        elif isinstance(r, (ast.Tuple, ast.List)) and len(r.elts) == len(names):
+                            rows.append(dict(zip(names, r.elts)))
+                        else:
+                            rows = None
+                            break
+                    if not rows:
+                        continue
+                    iff = l.body[0]
+                    last = iff.body[-1]
+                    if any(isinstance(x, ast.Continue) for b in iff.body for x in ast.walk(b)):
+                        continue
+                    if isinstance(last, ast.Return):
+                        new = []
+                        for mp in rows:
+                            new.append(ast.If(test=_subst(iff.test, mp), body=[_subst(b, mp) for b in iff.body], orelse=[]))
+                        new += [copy.deepcopy(x) for x in l.orelse]
+                    elif isinstance(last, ast.Break) and not any(isinstance(x, ast.Break) for b in iff.body[:-1] for x in ast.walk(b)):
+                        chain = [copy.deepcopy(x) for x in l.orelse]
+                        for mp in reversed(rows):
+                            body = [_subst(b, mp) for b in iff.body[:-1]] or [ast.Pass()]
+                            chain = [ast.If(test=_subst(iff.test, mp), body=body, orelse=chain)]
+                        new = chain
+                    else:
+                        continue
+                    new = [_relocate(_GetattrConst().visit(x), l) for x in new]
+                    stmts[i - 1 : i] = new
+                    i += len(new) - 1
+                    changed = True
+                    self.log.append(f"{q}: table-driven loop over {ast.unparse(l.iter)[:30]} ({len(rows)} rows) written out as tests")
+        return changed
 
     def _mutation_free(self, node, stmts, i, v) -> bool:
         """between the binding stmts[i] of a pure-expression local v and its uses nothing can change what the
